@@ -27,7 +27,7 @@ REQUIRED = ["histories", "steps_checked", "fields_set_checks", "is_set_checks", 
             "undecorated_class_checks", "nonempty_unset_observed", "random_histories"]
 RULE = ("enumerated with_fields_set dataclass families (plain, default_as_set, init=False, __post_init__ assigning fields, InitVar (default / required), "
         "undecorated base -> decorated, decorated -> undecorated dataclass, decorated -> undecorated -> decorated, decorated -> decorated, plain subclass of a decorated class, "
-        "alias + default_factory, frozen, never decorated) x creators {constructor call, deserialize} over every subset of the optional init parameters (+ positional calls) "
+        "alias + default_factory (+ default_as_set), fields with a never-true skip condition, frozen, all-optional, never decorated) x creators {constructor call, deserialize} over every subset of the optional init parameters (+ positional calls) "
         "x every sequence of mutators {assign f, set_fields (one / two / no field, overwrite or not), unset_fields, replace(no / one / two changes)}; "
         "exhaustive for histories of length <= 3 (quick) / <= 4 (thorough), random histories of length <= 8 with several live instances; "
         "all of it repeated for the deserialize-created histories with settings.deserialization.override_dataclass_constructors = True. "
@@ -38,7 +38,7 @@ ASSUMPTIONS = [
     "unspecified (not compared, counted): the set right after constructing an instance of an *undecorated dataclass subclass* of a decorated class "
     "(adopted from the observation, later steps are exact); after replace, membership of an init=False / default_as_set field that had been explicitly unset; "
     "names that are not dataclass fields (InitVar names, other attributes)",
-    "other omission rules (skip, exclude_none, exclude_defaults, Undefined) are off; aliases only rename keys",
+    "other omission rules (skip, exclude_none, exclude_defaults, Undefined) are off or never apply; aliases only rename keys",
 ]
 
 # --------------------------------------------------------------------------------------------------------------
@@ -46,8 +46,8 @@ ASSUMPTIONS = [
 
 
 class F:
-    def __init__(self, name, kind="n", req=False, das=False, alias=None, factory=False, default=0):
-        self.name, self.kind, self.req, self.das, self.alias, self.factory, self.default = name, kind, req, das, alias, factory, default
+    def __init__(self, name, kind="n", req=False, das=False, alias=None, factory=False, default=0, md=None):
+        self.name, self.kind, self.req, self.das, self.alias, self.factory, self.default, self.md = name, kind, req, das, alias, factory, default, md
 
     def decl(self):
         if self.kind == "iv":
@@ -63,6 +63,8 @@ class F:
             md.append("default_as_set")
         if self.alias:
             md.append(f"alias({self.alias!r})")
+        if self.md:
+            md.append(self.md)
         if md:
             args.append("metadata=" + " | ".join(md))
         tp = "List[int]" if self.factory else "int"
@@ -118,7 +120,9 @@ def families():
                                      C("K", [F("d"), F("e")], base="B")]
     fam["plain_subclass"] = [C("B", [F("a", req=True), F("b", das=True), F("c"), F("d", kind="nf", default=6)]),
                              C("K", [], base="B", deco=False, dc=False)]
-    fam["alias_factory"] = [C("K", [F("a", req=True, alias="A"), F("b", alias="bee"), F("c", factory=True), F("d", das=True, alias="D")])]
+    fam["alias_factory"] = [C("K", [F("a", req=True, alias="A"), F("b", alias="bee"), F("c", factory=True), F("d", das=True, alias="D"), F("e", factory=True, das=True)])]
+    # a never-true skip condition: no omission, but the field is serialised by the general (conditional) field serialiser also when exclude_unset=False
+    fam["conditional_field_serializer"] = [C("K", [F("a", req=True, md="skip(serialization_if=never)"), F("b", md="skip(serialization_if=never)"), F("c", das=True, md="skip(serialization_if=never)"), F("d")])]
     fam["frozen"] = [C("K", [F("a", req=True), F("b"), F("c", das=True), F("d", kind="nf", default=5)], frozen=True)]
     fam["all_optional"] = [C("K", [F("a"), F("b", default=1), F("c", default=2)])]
     fam["never_decorated"] = [C("K", [F("a", req=True), F("b"), F("c", kind="nf", default=5)], deco=False)]
@@ -129,7 +133,11 @@ PRELUDE = """from dataclasses import dataclass, field, InitVar
 from typing import List, Optional
 from apischema import alias
 from apischema.fields import with_fields_set
-from apischema.metadata import default_as_set
+from apischema.metadata import default_as_set, skip
+
+
+def never(value):
+    return False
 """
 
 _counter = [0]
@@ -328,7 +336,10 @@ class Runner:
 
     # ---- monitors
     def observe_set(self, obj):
-        fs = self.fields_set(obj)
+        try:
+            fs = self.fields_set(obj)
+        except Exception as e:
+            return e, False
         ok = isinstance(fs, (set, frozenset)) and all(type(x) is str for x in fs)
         return fs, ok
 
@@ -337,8 +348,11 @@ class Runner:
         env, fam = self.env, self.fam
         fs, ok = self.observe_set(obj)
         if not ok:
-            self.violation("fields_set-not-a-set-of-str", ops, step, observed=repr(fs))
-            return set()
+            if isinstance(fs, Exception):
+                self.violation("exception", ops, step, {"exc": type(fs).__name__, "observer": "fields_set"}, message=str(fs)[:300])
+            else:
+                self.violation("fields_set-not-a-set-of-str", ops, step, observed=repr(fs))
+            return None
         obs = set(fs) & set(fam.names)
         env.count("fields_set_checks")
         if st.U:
@@ -354,8 +368,12 @@ class Runner:
         if not full:
             return obs
         # is_set
-        view = self.is_set(obj)
-        bad = [n for n in fam.names if bool(getattr(view, n)) != (n in fs)]
+        try:
+            view = self.is_set(obj)
+            bad = [n for n in fam.names if bool(getattr(view, n)) != (n in fs)]
+        except Exception as e:
+            self.violation("exception", ops, step, {"exc": type(e).__name__, "observer": "is_set"}, message=str(e)[:300])
+            bad = []
         env.count("is_set_checks")
         if bad:
             self.violation("is_set-mismatch", ops, step, fields=bad, observed=sorted(fs))
@@ -458,11 +476,15 @@ class Runner:
                 self.check_untracked(cur, ops, step)
                 continue
             obs = self.check(cur, st, ops, step)
+            if obs is None:
+                return
             for old, ost in olds:
                 env.count("old_instance_checks")
                 self.check(old, ost, ops, step, full=False)
         if fam.tracked and cur is not None:
-            self.check_nested(cur, set(self.fields_set(cur)) & set(fam.names), ops)
+            fs, ok = self.observe_set(cur)
+            if ok:
+                self.check_nested(cur, set(fs) & set(fam.names), ops)
         env.count("histories")
         if self.override:
             env.count("override_constructors_histories")
